@@ -39,6 +39,47 @@ static void INTERP_PATH(int from, DPath *p, double t, int state, double r) { int
 void dub_interpolate(const int from, const int to, const double t, bool *firstTime, DPath *path, int state)
 /*@BODY dub_interpolate@*/
 
+/* ---- dubins(d, alpha, beta): the dispatcher ---- */
+double A_IN, B_IN, A_N, B_N; unsigned mod_calls; bool LONG; int solver_used; double sd, sa, sb;
+static double MOD2PI(double x) { mod_calls++; if (x == A_IN) return A_N; if (x == B_IN) return B_N; return x; }
+static bool IS_LONG(double d, double a, double b) { __CPROVER_assert(a == A_N && b == B_N, "the long-path test sees the normalised angles"); return LONG; }
+static int CLASSIFY(double d, double a, double b) { solver_used = 1; sd = d; sa = a; sb = b; return 11; }
+static int EXHAUST(double d, double a, double b) { solver_used = 2; sd = d; sa = a; sb = b; return 12; }
+int dub_dispatch(double d, double alpha, double beta)
+/*@BODY dub_dispatch@*/
+/* ---- Reeds-Shepp: cached interpolate and distance ---- */
+static DPath RS_PATH(int a, int b) { DPath p; p.reverse_ = false; if (a == O_FROM && b == O_TO) { p.id = 1; p.len = PLEN_FWD; } else { p.id = 99; p.len = 0; } return p; }
+void rs_interpolate(const int from, const int to, const double t, bool *firstTime, DPath *path, int state)
+/*@BODY rs_interpolate@*/
+static double RSLEN(int a, int b) { if (a == S1 && b == S2) { q12++; return DL12; } qother++; return 0.0; }
+double rs_distance(int state1, int state2)
+/*@BODY rs_distance@*/
+void h_dispatch(void)
+{
+    double d; __CPROVER_assume(d == d && d >= 0.0 && A_IN == A_IN && B_IN == B_IN && A_N == A_N && B_N == B_N && A_IN != B_IN && A_IN != A_N && A_IN != B_N && B_IN != A_N && B_IN != B_N);
+    mod_calls = 0; solver_used = 0;
+    int r = dub_dispatch(d, A_IN, B_IN);
+    if (r == ZERO_PATH) { __CPROVER_assert(d < DUBINS_EPS && fabs(A_IN - B_IN) < DUBINS_EPS && zero_straight == d && solver_used == 0, "zero path only for coincident poses"); REACH("degenerate"); }
+    else { __CPROVER_assert(mod_calls == 2 && sd == d && sa == A_N && sb == B_N, "both headings are normalised before a word is chosen; the distance is passed on unchanged");
+           __CPROVER_assert(solver_used == (LONG ? 1 : 2) && r == (LONG ? 11 : 12), "C14.six short paths enumerate all six words (exhaustive); only long paths use the classification table"); if (LONG) REACH("long"); else REACH("short"); }
+}
+void h_rs_interpolate(void)
+{
+    double t; __CPROVER_assume(t == t && PLEN_FWD == PLEN_FWD && rho_ > 0.0); bool first = true; DPath path; path.id = 0; path.reverse_ = false; path.len = 0;
+    int state = nondet_int(); __CPROVER_assume(state == O_OUT || state == O_FROM || state == O_TO); copies = 0; self_copy = false; interp_calls = 0;
+    rs_interpolate(O_FROM, O_TO, t, &first, &path, state);
+    __CPROVER_assert(!self_copy, "no state is copied onto itself");
+    if (t >= 1.) { __CPROVER_assert(interp_calls == 0 && (state == O_TO ? copies == 0 : (copies == 1 && copy_dst == state && copy_src == O_TO)), "C14.end at t >= 1 the result is exactly the target pose"); REACH("t=1"); }
+    else if (t <= 0.) { __CPROVER_assert(interp_calls == 0 && (state == O_FROM ? copies == 0 : (copies == 1 && copy_dst == state && copy_src == O_FROM)), "at t <= 0 the result is exactly the start pose"); REACH("t=0"); }
+    else { __CPROVER_assert(interp_calls == 1 && copies == 0 && !first && from_used == O_FROM && t_used == t && path_used == 1 && path.id == 1, "the curve followed is reedsShepp(from, to), from the start pose, at the requested t; the cache flag is cleared"); REACH("interior"); }
+}
+void h_rs_distance(void)
+{
+    __CPROVER_assume(rho_ == rho_ && DL12 == DL12 && PROD == PROD); q12 = q21 = qother = 0;
+    double x = rs_distance(S1, S2);
+    __CPROVER_assert(x == PROD && mul_r == rho_ && mul_x == DL12 && q12 == 1 && qother == 0, "C14.length Reeds-Shepp distance = turning radius x length of the curve from state1 to state2"); REACH("distance");
+}
+
 void h_exhaustive(void)
 {
     double d, a, b; __CPROVER_assume(d == d && a == a && b == b && d >= 0.0);
